@@ -38,6 +38,20 @@ fn main() {
                     Err(_) => println!("PANIC"),
                 }
             }
+            // json <hex utf8> -> OK | ERR | PANIC      jsond <depth> <hex> -> same through parse_max_depth
+            "json" | "jsond" => {
+                let (depth, hx) = if parts[0] == "json" { (None, parts[1]) } else { (Some(parts[1].parse::<usize>().unwrap()), parts[2]) };
+                let text = String::from_utf8(unhex(hx)).unwrap();
+                let r = std::panic::catch_unwind(|| match depth {
+                    None => humphrey_json::Value::parse(&text).is_ok(),
+                    Some(d) => humphrey_json::Value::parse_max_depth(&text, d).is_ok(),
+                });
+                match r {
+                    Ok(true) => println!("OK"),
+                    Ok(false) => println!("ERR"),
+                    Err(_) => println!("PANIC"),
+                }
+            }
             "sha1" => {
                 use humphrey_ws::verif::SHA1Hash;
                 let m = unhex(parts[1]);
